@@ -301,6 +301,37 @@ theorem value_clause_text_vt (key : Str) (op vt : String) (tmpl : String) (e : T
     simp only [not_or] at h3
     simp [valueToCel, hsw, h3.1, h3.2.1, h3.2.2, ht, he, PV.celText]
 
+/-! ### list values (round 2) -/
+
+/-- "every string taken from the policy (values …) appears as a CEL literal that evaluates back to exactly
+that string", for the elements of a LIST value, which `value_to_cel` writes with Python's `repr` (either
+quote; `\xNN`, `\uNNNN`, `\UNNNNNNNN` for whatever `str.isprintable` rejects — `np`, any set of characters).
+Full statement: the text `repr(s)` lexes as exactly one STRING_LIT token and `celstr` of it is `s`.
+Proved part: `celstr (repr s) = s` for ALL strings and ALL `np` (the quote chosen is one of the two CEL
+quotes, and decoding undoes every escape `repr` writes). Missing: the lexing half for the single-quoted
+branch of the STRING_LIT regex (compared with the real parser on every emitted list by the `emit` and
+`clause` streams). A rendering that writes an astral character as two `\uXXXX` surrogate escapes
+(seeded change C19-m5) is not this `pyRepr`: the `emit` correspondence breaks on it. -/
+theorem list_literal_decodes_partial (np : List Char) (s : Str) : celstr (pyRepr np s) = some s := by
+  have hq : GoodQuote (pyReprQuote s) := by
+    unfold pyReprQuote GoodQuote; split <;> simp
+  simp only [celstr, pyRepr, List.drop_one, List.tail_cons, dropLast_snoc]
+  exact decodeBody_pyReprBody np _ hq s
+
+/-- the text of a list-valued clause: the op's template with the key and the bracketed, comma-separated
+`repr` literals of the elements pasted in -/
+theorem value_clause_text_list (key : Str) (op : String) (tmpl : String) (np : List Char) (xs : List Str)
+    (ht : lookup XlateTables.atomicOpMap op = some tmpl) :
+    valueToCel XlateTables.atomicOpMap XlateTables.typeValueMap key op (.strsU np xs) none
+      = .ok (format2 tmpl.toList key (['['] ++ joinWith [',', ' '] (xs.map (pyRepr np)) ++ [']'])) := by
+  simp [valueToCel, ht, PV.celText]
+
+example : pyRepr [] (lit "it's") = lit "\"it's\"" ∧ pyRepr [] (lit "a\"b'") = lit "'a\"b\\''" ∧
+    pyRepr ['\u0085'] ['\u0085', 'é'] = lit "'\\x85é'" ∧
+    pyRepr [Char.ofNat 0xE0001] [Char.ofNat 0xE0001] = lit "'\\U000e0001'" := by decide
+/-- regression (C19-m5): the two-surrogate spelling of an astral character does not decode to it -/
+example : celstr (lit "\"\\ud83d\\ude80\"") ≠ some [Char.ofNat 0x1F680] := by decide
+
 /-! ### resource tables -/
 
 /-- "every resource type listed in the translator's tables yields syntactically valid CEL": every
